@@ -96,6 +96,23 @@ class Parser:
             return ("let", name, ty, e)
         if v == "if":
             return ("expr", self.if_())
+        if v == "for":
+            self.next()
+            if self.accept("("):
+                pat = []
+                while not self.accept(")"):
+                    pat.append(self.next()[1]); self.accept(",")
+            else:
+                pat = [self.next()[1]]
+            self.expect("in")
+            self.nostruct += 1
+            it = self.expr(no_struct=True)
+            if self.peek()[1] in ("..", "..="):
+                incl = self.next()[1] == "..="
+                hi = self.expr(no_struct=True)
+                it = ("range", it, hi, incl)
+            self.nostruct -= 1
+            return ("for", pat, it, self.block())
         if v == "while":
             self.next()
             self.nostruct += 1
@@ -258,6 +275,9 @@ class Gen:
         self.uses_fuel = False
         self.calls = {}                 # rust path / method name -> (gallina term, "pure" | "nres"): modelled callees
         self.identity_calls = set()     # wrappers that do not change the bytes (X::from_le_bytes, .as_le_bytes(), ...)
+        self.loop_depth = 0             # >0 while translating a `for` body: `return e` leaves the loop with (inl e)
+        self.ctor_calls = {}            # rust path of a tuple variant / constructor -> gallina constructor (applied to its arguments)
+        self.str_vars = set()           # gallina names of values of type &str (lists of scalar values)
         self.enums = {}                 # rust path of a unit variant -> gallina constructor
         self.structs = {}               # struct name -> field order of the tuple that stands for it
         self.draws = {}                 # type name -> gallina term of the number of bytes X::randomized() draws
@@ -306,6 +326,8 @@ class Gen:
             ty = e[2]
             if ty not in BITS: raise Untranslatable("cast to %s" % ty)
             def kc(t, tt):
+                if tt == "char":      # char as u8: the low 8 bits of the scalar value
+                    return k("(%s mod %d)" % (t, 2 ** BITS[ty]), ty) if BITS[ty] < 32 else k(t, ty)
                 if tt is None or tt == "bool": raise Untranslatable("cast of untyped value")
                 if BITS[ty] < BITS[tt]:
                     return k("(%s mod %d)" % (t, 2 ** BITS[ty]), ty)
@@ -331,6 +353,12 @@ class Gen:
             return gos(0, [])
         if kind == "fncall" and e[1] in ("Ok", "Err") and len(e[2]) == 1:
             return self.expr(e[2][0], lambda t, tt: k("(%s %s)" % ("inl" if e[1] == "Ok" else "inr", t), ("result", e[1], tt)))
+        if kind == "fncall" and e[1] in self.ctor_calls:
+            args = e[2]
+            def gok(i, acc):
+                if i == len(args): return k("(%s %s)" % (self.ctor_calls[e[1]], " ".join(acc)), "enum")
+                return self.expr(args[i], lambda t, tt: gok(i + 1, acc + [t]))
+            return gok(0, [])
         if kind == "fncall" and e[1] in self.identity_calls and len(e[2]) == 1:
             return self.expr(e[2][0], k, want)
         if kind == "fncall" and e[1].endswith("::randomized") and not e[2]:
@@ -389,6 +417,12 @@ class Gen:
                 # short circuit: the right operand (and its panics) is evaluated only when needed
                 def ks(a, ta):
                     if ta != "bool": raise Untranslatable("%s on non-boolean" % op)
+                    # a right operand that cannot panic needs no short circuit: plain boolean connective
+                    n0 = self.n
+                    probe = self.expr(e[3], lambda t, tt: "\0" + t + "\0")
+                    if probe.startswith("\0") and probe.endswith("\0") and probe.count("\0") == 2:
+                        return k("(%s %s %s)" % (a, op, probe[1:-1]), "bool")
+                    self.n = n0
                     right = self.expr(e[3], k)
                     if op == "&&": return "if %s then (\n  %s\n  ) else (\n  %s\n  )" % (a, right, k("false", "bool"))
                     return "if %s then (\n  %s\n  ) else (\n  %s\n  )" % (a, k("true", "bool"), right)
@@ -447,8 +481,25 @@ class Gen:
                     t_ = "(N_to_le %d %s)" % (nbytes, a)
                     return k("(rev %s)" % t_ if name == "to_be_bytes" else t_, ("arr", "u8"))
                 return self.expr(recv, kb_)
+            if name in ("is_ascii", "is_ascii_control", "is_ascii_lowercase") and not args:
+                def kc_(a, ta):
+                    if ta != "char": raise Untranslatable(".%s() of %s" % (name, ta))
+                    return k("(%s %s)" % (name, a), "bool")
+                return self.expr(recv, kc_)
+            if name == "to_ascii_uppercase" and not args:
+                def ku_(a, ta):
+                    if ta != "char": raise Untranslatable(".to_ascii_uppercase() of %s" % (ta,))
+                    return k("(to_ascii_uppercase %s)" % a, "char")
+                return self.expr(recv, ku_)
+            if name == "is_empty" and not args:
+                def ke_(a, ta):
+                    if ta == "str": return k("(Nat.eqb (str_len %s) 0)" % a, "bool")
+                    if isinstance(ta, tuple) and ta[0] == "arr": return k("(Nat.eqb (length %s) 0)" % a, "bool")
+                    raise Untranslatable(".is_empty() of %s" % (ta,))
+                return self.expr(recv, ke_)
             if name == "len" and not args:
                 def kn_(a, ta):
+                    if ta == "str": return k("(N.of_nat (str_len %s))" % a, "usize")
                     if not (isinstance(ta, tuple) and ta[0] == "arr"): raise Untranslatable(".len() of a non-array")
                     return k("(N.of_nat (length %s))" % a, "usize")
                 return self.expr(recv, kn_)
@@ -511,6 +562,54 @@ class Gen:
         if not ss:
             return final(None)
         s, rest = ss[0], ss[1:]
+        if s[0] == "for":
+            pat, it, body = s[1], s[2], s[3]
+            assigned = []
+            def walkf(ss_):
+                for x in ss_:
+                    if x[0] == "assign":
+                        key = self.lhs_key(x[1] if x[1][0] != "index" else x[1][1])
+                        if key in self.env and key not in assigned: assigned.append(key)
+                    elif x[0] in ("expr", "tail") and isinstance(x[1], tuple) and x[1][0] == "if":
+                        walkf(x[1][2]); walkf(x[1][3] or [])
+                    elif x[0] in ("while",): walkf(x[2])
+                    elif x[0] == "for": walkf(x[3])
+            walkf(body)
+            order = [k_ for k_ in self.env if k_ in assigned]
+            if not order: raise Untranslatable("for loop that assigns nothing")
+            def tup(): return "(" + ", ".join(self.env[k_][0] for k_ in order) + ")" if len(order) > 1 else self.env[order[0]][0]
+            # the list iterated over and the element pattern
+            def with_list(lst, elem_types):
+                if len(pat) != len(elem_types): raise Untranslatable("for pattern arity")
+                saved = dict(self.env)
+                names = []
+                for p_, ty_ in zip(pat, elem_types):
+                    g_ = "v_" + p_; self.env[p_] = (g_, ty_); names.append(g_)
+                epat = "(" + ", ".join(names) + ")" if len(names) > 1 else names[0]
+                spat = tup()
+                self.loop_depth += 1
+                b = self.stmts(list(body), lambda tail: "Some (inr %s)" % tup())
+                self.loop_depth -= 1
+                self.env = dict(saved)
+                sb = ("fun '%s" % spat) if len(order) > 1 else "fun %s" % spat
+                eb = ("'%s" % epat) if len(names) > 1 else epat
+                after = self.stmts(rest, final)
+                early = ("Some (inl r_early)" if self.loop_depth > 0 else "Some r_early")
+                return ("match for_loop (%s %s =>\n  %s) %s %s with\n  | None => None\n  | Some (inl r_early) => %s\n  | Some (inr %s) =>\n  %s end"
+                        % (sb, eb, b, spat, lst, early, spat, after))
+            if it[0] == "range":
+                def klo(lo, tl):
+                    def khi(hi, th):
+                        t_ = self.unify(tl, th, "range") or "usize"
+                        return with_list("(range_list %s %s)" % (lo, ("(%s + 1)" % hi) if it[3] else hi), [t_])
+                    return self.expr(it[2], khi, tl)
+                return self.expr(it[1], klo)
+            if it[0] == "call" and it[2] == "enumerate" and it[1][0] == "call" and it[1][2] == "chars":
+                def ks(sv, ts):
+                    if ts != "str": raise Untranslatable(".chars() of a non-str")
+                    return with_list("(enumerate_list %s)" % sv, ["usize", "char"])
+                return self.expr(it[1][1], ks)
+            raise Untranslatable("for over %r" % (it[0],))
         if s[0] == "while":
             cond, body = s[1], s[2]
             assigned = []
@@ -622,6 +721,8 @@ class Gen:
             if s[1][0] == "if": return self.if_stmt(s[1], rest, final)
             return self.expr(s[1], lambda t, tt: final((t, tt)))
         if s[0] == "return":
+            if self.loop_depth > 0:
+                return self.expr(s[1], lambda t, tt: "Some (inl %s)" % t)
             return self.expr(s[1], lambda t, tt: final((t, tt)))
         if s[0] == "expr" and s[1][0] == "if":
             return self.if_stmt(s[1], rest, final)
@@ -726,6 +827,7 @@ def param_type(ty):
     """rust type text -> ('u8' | ... | ('arr', elem)), mutable?"""
     mut = bool(re.match(r"&\s*mut\b", ty))
     t = re.sub(r"^&\s*(mut\s+)?", "", ty).strip()
+    if t == "str": return "str", mut
     if t in BITS: return t, mut
     m = re.match(r"\[\s*(\w+)\s*(?:;.*)?\]$", t, flags=re.S)
     if m and m.group(1) in BITS: return ("arr", m.group(1)), mut
